@@ -266,7 +266,7 @@ func corrStart(c *hc.Ctx) {
 		r := math.Mod(off+pos0-pre, P)
 		congruent := r == 0
 		replay := map[string]any{"offset": off, "d": d, "i0": i0, "pos0": pos0}
-		// (since 8d5b47c for every offset; the kinds below are the regression classes of that defect)
+		// (since e14817f for every offset; the kinds below are the regression classes of that defect)
 		if !(pos0 <= 0) || !congruent {
 			kind := "dashStart:phase"
 			if off < -P {
@@ -326,11 +326,54 @@ func corrDash(c *hc.Ctx) {
 		P := sum(d)
 		off, ocls := genOffset(c, P)
 		ns := 1 + c.Intn(3)
+		// class "exact": several subpaths whose lengths are whole periods (plus, sometimes, a whole
+		// number of pattern entries), so that pattern boundaries fall exactly on subpath ends
+		exact := P > 0 && P < 12 && c.Chance(0.3)
+		dd := d
+		if len(d)%2 == 1 {
+			dd = append(append([]float64{}, d...), d...)
+		}
+		if exact {
+			ns = 2 + c.Intn(2)
+			cls += "/exact-subpath-lengths"
+			if c.Chance(0.6) {
+				off, ocls = float64(c.Intn(3))*sum(dd), "off:exact-periods"
+			}
+		}
 		subs := make([]rsub, ns)
 		p := &canvas.Path{}
 		for k := range subs {
 			s := rsub{closed: c.Chance(0.4), x0: float64(c.Intn(17)-8) / 4, y0: float64(100*k) + 10 + float64(c.Intn(9))/4}
-			if s.closed {
+			T := 0.0
+			if exact {
+				T = float64(1+c.Intn(3)) * sum(dd)
+				if c.Chance(0.4) {
+					T += sum(dd[:c.Intn(len(dd))])
+				}
+				if math.Mod(T, 0.25) != 0 {
+					s.closed = false
+				}
+			}
+			if exact && s.closed {
+				s.w = math.Max(0.125, math.Floor(c.Range(0.1, 0.9)*T/2*8)/8)
+				s.h = T/2 - s.w
+				if !(s.h > 0) {
+					s.w, s.h = T/4, T/4
+				}
+				s.length = 2*s.w + 2*s.h
+				p.MoveTo(s.x0, s.y0)
+				p.LineTo(s.x0+s.w, s.y0)
+				p.LineTo(s.x0+s.w, s.y0+s.h)
+				p.LineTo(s.x0, s.y0+s.h)
+				p.Close()
+			} else if exact {
+				p.MoveTo(s.x0, s.y0)
+				if cut := math.Floor(c.Range(0, 1)*T*8) / 8; cut > 0 && cut < T && c.Bool() {
+					p.LineTo(s.x0+cut, s.y0)
+				}
+				p.LineTo(s.x0+T, s.y0)
+				s.length = T
+			} else if s.closed {
 				s.w, s.h = dy(c, 80), dy(c, 80)
 				s.length = 2*s.w + 2*s.h
 				p.MoveTo(s.x0, s.y0)
